@@ -237,10 +237,54 @@ def _is_boolean(e):
     return isinstance(e, (ast.Compare, ast.BoolOp)) or (isinstance(e, ast.UnaryOp) and isinstance(e.op, ast.Not))
 
 
+def _may_raise_atom(e):
+    for n in ast.walk(e):
+        if isinstance(n, ast.Subscript) and not isinstance(n.slice, ast.Slice):
+            return True
+        if isinstance(n, ast.Call) and not (isinstance(n.func, ast.Name) and n.func.id in ('len', 'isinstance', 'ord', 'bool', 'any', 'all')):
+            return True
+        if isinstance(n, ast.BinOp) and isinstance(n.op, (ast.Div, ast.FloorDiv, ast.Mod)):
+            return True
+    return False
+
+
+def _atoms_in_order(e):
+    """the atoms of a boolean formula in evaluation order, each in a polarity-free canonical text"""
+    from .rules import _canon_text_of
+    out = []
+
+    def walk(x):
+        if isinstance(x, ast.BoolOp):
+            for v in x.values:
+                walk(v)
+        elif isinstance(x, ast.UnaryOp) and isinstance(x.op, ast.Not):
+            walk(x.operand)
+        elif isinstance(x, ast.Compare) and len(x.ops) > 1:
+            # a chained comparison evaluates its operands left to right
+            for k in range(len(x.ops)):
+                walk(ast.Compare(left=x.left if k == 0 else x.comparators[k - 1], ops=[x.ops[k]], comparators=[x.comparators[k]]))
+        else:
+            try:
+                a, b = _canon_text_of(_clone(x)), _canon_text_of(_clone(x), negate=True)
+            except Exception:
+                a = b = norm(x)
+            out.append(min(a, b))
+    walk(e)
+    return out
+
+
+def _order_key(e):
+    """'' for a formula none of whose atoms can raise; otherwise its atoms in evaluation order: `a and b` is `b and a` only
+    as a truth value - if evaluating b can raise (an index, a call), which of them is looked at first is behaviour"""
+    if not _may_raise_atom(e):
+        return ''
+    return ' ORD:' + '|'.join(_atoms_in_order(e))
+
+
 def _canon_bool(e):
     from .rules import _canon_text_of
     try:
-        return 'B:' + _canon_text_of(_clone(e))
+        return 'B:' + _canon_text_of(_clone(e)) + _order_key(e)
     except Exception:
         return 'b:' + norm(e)
 
@@ -410,6 +454,8 @@ class Restorer(object):
                         from .escape import _TruthyLen
                         m2 = ast.fix_missing_locations(_TruthyLen(seqs)._b(m2))
                     v = equiv(m2, theirs)
+                    if v is True and _order_key(mine) != _order_key(theirs):
+                        v = None  # the same truth value, but not the same order of evaluation
                 except Exception:
                     v = None
                 if v is True:
@@ -445,6 +491,66 @@ class Restorer(object):
             blk[i] = fresh
         self.log(n, 'statement `%s` read as its confirmed spelling `%s`' % (old[:70], new[:70]))
 
+    @staticmethod
+    def zero_trip_guard(blk, i):
+        s = blk[i]
+        if s.orelse or len(s.body) != 1 or not isinstance(s.body[0], ast.Return) or s.body[0].value is None:
+            return False
+        ret = s.body[0].value
+        # the subject: N in `N == 0`, `N < 1`, `not N`, `len(S) == 0`, `len(S) < 1`, `not S`
+        t = s.test
+        subj = None
+        if isinstance(t, ast.UnaryOp) and isinstance(t.op, ast.Not):
+            subj = t.operand
+        elif isinstance(t, ast.Compare) and len(t.ops) == 1 and isinstance(t.comparators[0], ast.Constant):
+            c = t.comparators[0].value
+            if (isinstance(t.ops[0], ast.Eq) and c == 0) or (isinstance(t.ops[0], ast.Lt) and c == 1) or (isinstance(t.ops[0], ast.LtE) and c == 0):
+                subj = t.left
+        if subj is None:
+            return False
+        seq = subj.args[0] if (isinstance(subj, ast.Call) and norm(subj.func) == 'len' and len(subj.args) == 1) else None
+        rest = blk[i + 1:]
+        loops = [k for k, x in enumerate(rest) if isinstance(x, (ast.For, ast.While))]
+        if len(loops) != 1:
+            return False
+        lp = rest[loops[0]]
+        if lp.orelse:
+            return False
+        before, after = rest[:loops[0]], rest[loops[0] + 1:]
+        if isinstance(lp, ast.For):
+            it = lp.iter
+            if isinstance(it, ast.Call) and norm(it.func) == 'enumerate' and it.args:
+                it = it.args[0]
+            zero = False
+            if isinstance(it, ast.Call) and norm(it.func) == 'range' and it.args:
+                stop = it.args[0] if len(it.args) == 1 else it.args[1]
+                start_ok = len(it.args) == 1 or (isinstance(it.args[0], ast.Constant) and it.args[0].value == 0)
+                zero = start_ok and norm(stop) == norm(subj)
+            elif seq is not None:
+                zero = norm(it) == norm(seq)
+            elif isinstance(subj, ast.Name):
+                zero = norm(it) == norm(subj)
+            if not zero:
+                return False
+        else:
+            return False
+        # statements around the loop: plain initialisations before, a single return after
+        if not all(isinstance(x, ast.Assign) and len(x.targets) == 1 and isinstance(x.targets[0], ast.Name) and
+                   not any(isinstance(c, ast.Call) for c in ast.walk(x.value)) for x in before):
+            return False
+        if len(after) != 1 or not isinstance(after[0], ast.Return) or after[0].value is None:
+            return False
+        final = after[0].value
+        if isinstance(final, ast.Name):
+            inits = [x.value for x in before if x.targets[0].id == final.id]
+            if len(inits) != 1:
+                return False
+            final = inits[0]
+        try:
+            return ast.literal_eval(ast.unparse(final)) == ast.literal_eval(ast.unparse(ret)) and type(ast.literal_eval(ast.unparse(final))) is type(ast.literal_eval(ast.unparse(ret)))
+        except Exception:
+            return False
+
     # ---- structure
     def structure(self, fnode, inv):
         inv_ifs = inv.get('ifs')
@@ -475,6 +581,36 @@ class Restorer(object):
             again = False
             rounds += 1
             for blk in _blocks(fnode):
+                # (4) `r = n % b` then `n = n // b` is `n, r = divmod(n, b)` when that is what the confirmed tree says
+                for i in range(len(blk) - 1):
+                    s1, s2 = blk[i], blk[i + 1]
+                    if isinstance(s1, ast.Assign) and isinstance(s2, ast.Assign) and len(s1.targets) == 1 and len(s2.targets) == 1 \
+                            and isinstance(s1.targets[0], ast.Name) and isinstance(s2.targets[0], ast.Name) \
+                            and isinstance(s1.value, ast.BinOp) and isinstance(s1.value.op, ast.Mod) and isinstance(s2.value, ast.BinOp) and isinstance(s2.value.op, ast.FloorDiv) \
+                            and norm(s1.value.left) == norm(s2.value.left) == s2.targets[0].id and norm(s1.value.right) == norm(s2.value.right) and s1.targets[0].id != s2.targets[0].id:
+                        merged = ast.parse('%s, %s = divmod(%s, %s)' % (s2.targets[0].id, s1.targets[0].id, s2.targets[0].id, norm(s1.value.right))).body[0]
+                        if ast.unparse(merged) in set(inv.get('stmts', [])):
+                            for x in ast.walk(merged):
+                                ast.copy_location(x, s1)
+                            blk[i:i + 2] = [merged]
+                            self.log(s1, 'remainder and quotient statements read as `%s`' % ast.unparse(merged))
+                            changed += 1
+                            again = True
+                            break
+                if again:
+                    break
+                # (5) a zero-trip guard: `if n == 0: return <empty>` in front of a loop over range(n) (or over the sequence) whose
+                # result, when the loop body never runs, is that same empty value.  The guard adds no behaviour; without it
+                # the function is the confirmed one.
+                for i, s in enumerate(blk):
+                    if blk is fnode.body and isinstance(s, ast.If) and known(s.test) is None and self.zero_trip_guard(blk, i):
+                        self.log(s, 'guard `if %s: %s` only anticipates the result of the loop that follows when it runs zero times' % (norm(s.test)[:40], norm(s.body[0])[:30]))
+                        del blk[i]
+                        changed += 1
+                        again = True
+                        break
+                if again:
+                    break
                 for i, s in enumerate(blk):
                     if not isinstance(s, ast.If):
                         continue
